@@ -345,4 +345,54 @@ theorem toC_sqL2SqAbsProxC1_eq (scale w : ℝ) (z : ℝ × ℝ) (lam r : ℝ) :
       simp only [toC_re, toC_im, cscale, Complex.smul_re, Complex.smul_im, smul_eq_mul, Complex.one_re, Complex.one_im]
   · rfl
 
+
+/-- inside the band `|p| ≤ eps` (and `q < 0`) the code returns `c - p/(3c)`, `c = ∛(-q)`: the first-order correction of `∛(-q)` -/
+theorem depCubicRoot_band_val {eps p q : ℝ} (hq : q < 0) (hp : |p| ≤ eps) :
+    depCubicRoot eps p q = (-q) ^ (1 / 3 : ℝ) - p / (3 * (-q) ^ (1 / 3 : ℝ)) := by
+  have hnq : 0 < -q := by linarith
+  have hc : 0 < (-q) ^ (1 / 3 : ℝ) := cbrt_pos hnq
+  unfold depCubicRoot
+  simp only [hasAbs_abs]
+  rw [if_neg (not_lt.mpr hp), cbrtC_real hnq.le]
+  unfold reNoNanDivC cscale
+  have hne : (3 : ℝ) * (-q) ^ (1 / 3 : ℝ) ≠ 0 := by positivity
+  simp only [isZero_false hne, Bool.false_and, Bool.false_eq_true, if_false]
+  field_simp
+  ring
+
+/-- **error of `_dep_cubic_root` inside its band, exactly**: the residual of the cubic at the returned value is `p³/(27 q)`,
+    hence at most `eps³/(27|q|)` in modulus (`eps = 1e-7`: `≤ 3.8e-23/|q|`) -/
+theorem depCubicRoot_band_residual_eq {eps p q : ℝ} (hq : q < 0) (hp : |p| ≤ eps) :
+    depCubicRoot eps p q ^ 3 + p * depCubicRoot eps p q + q = p ^ 3 / (27 * q) := by
+  have hnq : 0 < -q := by linarith
+  obtain ⟨c, hcdef⟩ : ∃ c, c = (-q) ^ (1 / 3 : ℝ) := ⟨_, rfl⟩
+  have hc : 0 < c := by rw [hcdef]; exact cbrt_pos hnq
+  have hc3 : c ^ 3 = -q := by rw [hcdef]; exact cbrt_cube hnq.le
+  rw [depCubicRoot_band_val hq hp, ← hcdef]
+  have h1 : (c - p / (3 * c)) ^ 3 + p * (c - p / (3 * c)) = c ^ 3 - p ^ 3 / (27 * c ^ 3) := by
+    field_simp; ring
+  have hq0 : q ≠ 0 := hq.ne
+  rw [h1, hc3]
+  field_simp
+  ring
+
+theorem depCubicRoot_band_residual_le {eps p q : ℝ} (hq : q < 0) (hp : |p| ≤ eps) :
+    |depCubicRoot eps p q ^ 3 + p * depCubicRoot eps p q + q| ≤ eps ^ 3 / (27 * |q|) := by
+  rw [depCubicRoot_band_residual_eq hq hp, abs_div, abs_mul, abs_pow]
+  have h27 : |(27 : ℝ)| = 27 := abs_of_pos (by norm_num)
+  rw [h27]
+  have hq' : 0 < |q| := abs_pos.mpr hq.ne
+  apply div_le_div_of_nonneg_right _ (by positivity)
+  exact pow_le_pow_left₀ (abs_nonneg p) hp 3
+
+
+/-- inside the band with `q = 0` (i.e. `v_i = 0`) the code returns `0` (for `p < 0` the minimising radius is `√(-p) ≤ √eps`) -/
+theorem depCubicRoot_band_zero {eps p : ℝ} (hp : |p| ≤ eps) : depCubicRoot eps p 0 = 0 := by
+  unfold depCubicRoot
+  simp only [hasAbs_abs, neg_zero]
+  rw [if_neg (not_lt.mpr hp), cbrtC_real (le_refl 0)]
+  unfold reNoNanDivC cscale
+  have h0 : (0 : ℝ) ^ (1 / 3 : ℝ) = 0 := Real.zero_rpow (by norm_num)
+  simp [isZero_iff]
+
 end Scico.ProxCubic
